@@ -11,6 +11,7 @@
 #include <string.h>
 #include <stdint.h>
 
+#define VF_NO_ABORT_HANDLER 1   /* libFuzzer must see the abort to save the crashing input */
 static void fz_viol(const char *key, const char *what);
 #define TP_VIOL(mon, what)   fz_viol((mon), (what))
 #include "tlsmon.h"
@@ -21,6 +22,7 @@ fz_viol(const char *key, const char *what)
 	fflush(stdout);
 	fprintf(stderr, "FZ_VIOL %s %s\n", key, what);
 	fflush(stderr);
+	(void)vf_abort_handler_;
 	abort();
 }
 
@@ -75,10 +77,10 @@ next_chunk(uint32_t *st, size_t remaining)
 /* ------------------------------------------------------------------ */
 /* TLS engine targets */
 
-static tp_pair HS;            /* completed handshake, kept for the *_post targets */
-static tm_pairmon HSM;
-static tp_snap post_snap;
-static rm_cipher post_cs;     /* cipher state of the peer->victim direction */
+static tp_pair HSv[2];        /* completed handshakes, kept for the *_post targets: [0] full-size split buffers, [1] minimal shared buffer */
+static tm_pairmon HSMv[2];
+static tp_snap post_snapv[2];
+static rm_cipher post_csv[2]; /* cipher state of the peer->victim direction */
 static int post_role;
 static tp_fifo sinkf;
 
@@ -177,22 +179,35 @@ t_engine_pre(int role, const uint8_t *data, size_t len)
 static void
 post_init(int role)
 {
-	tp_cfg cc, sc;
-	static const uint16_t sl[1] = { 0xC02F };
+	int v;
+	static const uint16_t sl[2][1] = { { 0xC02F }, { 0x002F } };
 	post_role = role;
-	tp_cfg_default(&cc, 0); tp_cfg_default(&sc, 1);
-	cc.suites = sl; cc.nsuites = 1;
-	memset(cc.seed, 1, 32); memset(sc.seed, 2, 32);
-	tp_pair_init(&HS, 1, 1, TP_CHUNK_WHOLE);
-	HS.c.tx_key = 11; HS.s.tx_key = 22;
-	tm_pair_attach(&HSM, &HS);
-	HSM.m.check_app = 0;
-	if (!tp_ep_start(&HS.c, &cc) || !tp_ep_start(&HS.s, &sc) || !tp_handshake(&HS, 1000000)) {
-		fz_viol("setup", "post-handshake target: reference handshake failed");
+	for (v = 0; v < 2; v ++) {
+		tp_cfg cc, sc;
+		tp_cfg_default(&cc, 0); tp_cfg_default(&sc, 1);
+		cc.suites = sl[v]; cc.nsuites = 1;
+		if (v == 1) {
+			/* the victim gets the smallest shared buffer; its peer a full one */
+			tp_cfg *vc = role == 0 ? &cc : &sc;
+			vc->layout = TP_LAYOUT_MONO; vc->buflen = 512 + 325;
+			cc.vmin = cc.vmax = 0x0301;
+			if (role == 1) {
+				/* a small server needs a client that limits its records: also small */
+				cc.layout = TP_LAYOUT_MONO; cc.buflen = 512 + 325;
+			}
+		}
+		memset(cc.seed, 1 + v, 32); memset(sc.seed, 3 + v, 32);
+		tp_pair_init(&HSv[v], 1, 1, TP_CHUNK_WHOLE);
+		HSv[v].c.tx_key = 11; HSv[v].s.tx_key = 22;
+		tm_pair_attach(&HSMv[v], &HSv[v]);
+		HSMv[v].m.check_app = 0;
+		if (!tp_ep_start(&HSv[v].c, &cc) || !tp_ep_start(&HSv[v].s, &sc) || !tp_handshake(&HSv[v], 1000000)) {
+			fz_viol("setup", "post-handshake target: reference handshake failed");
+		}
+		/* victim = endpoint of the given role; records come from its peer */
+		post_csv[v] = HSMv[v].m.rm.cs[role == 0 ? 1 : 0];
+		tp_snap_take(&post_snapv[v], role == 0 ? &HSv[v].c : &HSv[v].s);
 	}
-	/* victim = endpoint of the given role; records come from its peer */
-	post_cs = HSM.m.rm.cs[role == 0 ? 1 : 0];
-	tp_snap_take(&post_snap, role == 0 ? &HS.c : &HS.s);
 }
 
 /*
@@ -204,13 +219,15 @@ post_init(int role)
 static void
 t_engine_post(const uint8_t *data, size_t len)
 {
-	tp_ep *ep = post_role == 0 ? &HS.c : &HS.s;
-	rm_cipher cs = post_cs;
+	int v = len > 0 ? (data[0] & 1) : 0;
+	tp_ep *ep = post_role == 0 ? &HSv[v].c : &HSv[v].s;
+	rm_cipher cs = post_csv[v];
 	static unsigned char rec[40000];
-	size_t off = 0;
+	size_t off = 1;
 	vf_rng r;
 	uint32_t cst = 7;
-	tp_snap_restore(&post_snap, ep);
+	if (len < 1) return;
+	tp_snap_restore(&post_snapv[v], ep);
 	vf_rng_init(&r, 1, 1);
 	while (off + 3 <= len && !tp_ep_closed(ep)) {
 		unsigned ctl = data[off];
@@ -222,8 +239,11 @@ t_engine_post(const uint8_t *data, size_t len)
 		rm_forge_defaults(&fo);
 		cst = ctl >> 4;
 		if (ctl & 4) {
-			rec[0] = (unsigned char)types[ctl & 3]; rec[1] = 3; rec[2] = 3;
+			/* raw record: header bytes taken from the input when there are enough, so that
+			   declared lengths beyond the receiver's buffer occur; body = what follows */
+			rec[0] = (unsigned char)types[ctl & 3]; rec[1] = 3; rec[2] = (unsigned char)(cs.version & 0xFF);
 			rec[3] = (unsigned char)(pl >> 8); rec[4] = (unsigned char)pl;
+			if ((ctl & 8) && pl >= 2) { rec[3] = data[off]; rec[4] = data[off + 1]; }
 			memcpy(rec + 5, data + off, pl);
 			rl = pl + 5;
 		} else {
@@ -840,7 +860,22 @@ gen_corpus(void)
 		static const unsigned char s4[] = { 0x00, 1, 0, 1, 0x07, 4, 0, 1, 2, 3, 4, 0x0B, 3, 0, 'a','b','c' };
 		static const unsigned char s5[] = { 0x01, 1, 0, 1, 0x01, 1, 0, 0, 0x03, 2, 0, 'o','k' };
 		static const unsigned char s6[] = { 0x02, 40, 0, 1, 0, 0, 36, 3, 3, 0,0,0,0,0,0,0,0,0,0,0,0,0,0,0,0,0,0,0,0,0,0,0,0,0,0,0,0,0,0,0,0,0,0, 0, 0, 2, 0, 0x2F, 1, 0 };
-		emit(s1, sizeof s1); emit(s2, sizeof s2); emit(s3, sizeof s3); emit(s4, sizeof s4); emit(s5, sizeof s5); emit(s6, sizeof s6);
+		{
+			const unsigned char *ss[6]; size_t sn[6]; int q, v2;
+			ss[0] = s1; sn[0] = sizeof s1; ss[1] = s2; sn[1] = sizeof s2; ss[2] = s3; sn[2] = sizeof s3;
+			ss[3] = s4; sn[3] = sizeof s4; ss[4] = s5; sn[4] = sizeof s5; ss[5] = s6; sn[5] = sizeof s6;
+			for (v2 = 0; v2 < 2; v2 ++) for (q = 0; q < 6; q ++) {
+				gbuf[0] = (unsigned char)v2; memcpy(gbuf + 1, ss[q], sn[q]); emit(gbuf, sn[q] + 1);
+			}
+			/* a raw record whose declared length is close to / beyond the small buffer: 0x0C = raw + header-from-input */
+			for (q = 0; q < 6; q ++) {
+				size_t dl = 826 + (size_t)q * 3, o = 0;
+				gbuf[o ++] = 1; gbuf[o ++] = 0x0F; gbuf[o ++] = 0xFF; gbuf[o ++] = 0x07;
+				gbuf[o ++] = (unsigned char)(dl >> 8); gbuf[o ++] = (unsigned char)dl;
+				memset(gbuf + o, 0x41, 2045); o += 2045;
+				emit(gbuf, o);
+			}
+		}
 		break;
 	}
 	case 4: {
